@@ -582,6 +582,9 @@ class DBusObject :
         r = {}
 
         def addp(p):
+            if p.pname in r:
+                # already supplied by a more derived class
+                return
             if p.iprop.access != 'write':
                 v = getattr(self, p.attr_name)
                 if p.iprop.sig in marshal.variantClassMap:
@@ -592,10 +595,11 @@ class DBusObject :
             for cache in self._iterIFaceCaches():
                 ifc = cache.get(interfaceName, None)
 
+                # the interface's properties (and methods) may be spread
+                # over several classes of the hierarchy: look at all of them
                 if ifc:
                     for p in ifc.properties.values():
                         addp(p)
-                    break
 
         else:
             for cache in self._iterIFaceCaches():
